@@ -5,7 +5,7 @@ pub enum IggyExpiry { ServerDefault, ExpireDuration(u64), NeverExpire }
 #[derive(Clone, Copy)]
 pub struct IggyDuration { pub micros: u64 }
 impl IggyDuration {
-    #[verifier::external_body] pub fn is_zero(&self) -> (r: bool) { unimplemented!() }
+    #[verifier::external_body] pub fn is_zero(&self) -> (r: bool) ensures r == (self.micros == 0), { unimplemented!() }
     #[verifier::external_body] pub fn default() -> (r: IggyDuration) { unimplemented!() }
 }
 #[verifier::external_body] pub struct SegmentLogWriter { x: u8 }
@@ -38,8 +38,14 @@ impl CacheMemoryTracker {
     pub fn initialize(config: &CacheConfig) -> (r: Option<std::sync::Arc<CacheMemoryTracker>>) { unimplemented!() }
 }
 impl MessageDeduplicator {
+    // what the id cache was built with (moka: max_capacity / time_to_live; A-dep(moka): a TTL of zero expires an id at
+    // insertion, a capacity of zero admits none — either would make an ENABLED deduplication drop nothing)
+    pub uninterp spec fn cap(&self) -> Option<u64>;
+    pub uninterp spec fn ttl(&self) -> Option<IggyDuration>;
     #[verifier::external_body]
-    pub fn new(max_entries: Option<u64>, ttl: Option<IggyDuration>) -> (r: MessageDeduplicator) { unimplemented!() }
+    pub fn new(max_entries: Option<u64>, ttl: Option<IggyDuration>) -> (r: MessageDeduplicator)
+        ensures r.cap() == max_entries, r.ttl() == ttl,
+    { unimplemented!() }
 }
 impl SystemConfig {
     #[verifier::external_body] pub fn get_segment_path(&self, stream_id: u32, topic_id: u32, partition_id: u32, start_offset: u64) -> (r: String) { unimplemented!() }
